@@ -435,9 +435,11 @@ def run(ctx: Ctx) -> RuleResult:
                 res.ob(site, 'unbound %s in %s: excused, %s' % (nm, q, g), True)
                 continue
             res.ob(site, '%s uses global %s, which the generated module binds' % (q, nm), False)
+            sect = _where(spans, line)
+            props = ['C11', 'C16'] if sect in ('lark/visitors.py', 'lark/parse_tree_builder.py') else ['C11']
             res.finding(SA, None, 'the generated stand-alone module never binds `%s`, used by %s (section of %s): calling it '
-                        'raises NameError' % (nm, q, _where(spans, line)), construct='unbound:%s:%s' % (q, nm),
-                        module=repo.module(SA))
+                        'raises NameError' % (nm, q, sect), construct='unbound:%s:%s' % (q, nm),
+                        module=repo.module(SA), props=props)
     res.ob('reconstructed module', 'global names of %d functions resolved against %d module-level bindings' % (n_b, len(bound)), True)
     res.tables['unsupported_used'] = sorted(used_unsupported)
     res.tables['guarded_used'] = sorted('%s:%s' % x for x in used_guarded)
